@@ -87,6 +87,12 @@ def selfsim_cases(rng, n):
         one5 = dict(one, sound_speed=1.0)
         out.append({'what': 'EHEP region I self-similarity', 'a': ['exactpack.solvers.ehep', 'EscapeOfHEProducts', pe, [x * t1 for x in xi], t1],
                     'b': ['exactpack.solvers.ehep', 'EscapeOfHEProducts', pe, [x * t2 for x in xi], t2], 'factors': one5, 'tol': 1e-10, 'scales': [t2 / t1]})
+        # region I extends beyond ttilde on the slower rays: along x = xi t it lasts until the backward characteristic from the free surface,
+        # x = xtilde - (D/2)(t - ttilde), i.e. t < (3/2) xtilde / (xi + D/2) (corner C-D at xi = 2 up + D/2); late points on slow rays
+        xs = [(2 * up + D / 2) + (D / 2 - 2 * up) * f for f in (0.02, 0.1, 0.25)]
+        tl = 0.96 * 1.5 * xt / (xs[-1] + D / 2); te = round(rng.uniform(0.05, 0.4), 4) * xt / D
+        out.append({'what': 'EHEP region I self-similarity (late times on slow rays)', 'a': ['exactpack.solvers.ehep', 'EscapeOfHEProducts', pe, [x * te for x in xs], te],
+                    'b': ['exactpack.solvers.ehep', 'EscapeOfHEProducts', pe, [x * tl for x in xs], tl], 'factors': one5, 'tol': 1e-10, 'scales': [tl / te]})
         # Mader: cell averages; the grid (hence the cell size) is scaled with t
         pm = {'p_cj': round(rng.uniform(0.1, 1), 4), 'd_cj': round(rng.uniform(0.3, 1.5), 4), 'gamma': round(rng.uniform(2.2, 3.5), 4),
               'u_piston': round(rng.uniform(0.0, 0.1), 4)}
